@@ -22,6 +22,8 @@ type Call struct {
 	First, Last int // compactrange
 }
 
+var errAbandoned = fmt.Errorf("harness: addition abandoned on purpose")
+
 // CompactRange is set when the export wrapper for compactRange is available.
 var CompactRange func(st *reftable.Stack, first, last int) (bool, error)
 
@@ -69,7 +71,7 @@ func (a *Actor) run(p *vos.Proc, c Call) {
 	vos.Yield("api", c.Kind) // scheduling point at the call boundary
 	w.Begin(p, ci)
 	hist := -1
-	if c.Kind == "add" || c.Kind == "addmulti" || c.Kind == "addempty" || c.Kind == "addbad" {
+	if c.Kind == "add" || c.Kind == "addmulti" || c.Kind == "addempty" || c.Kind == "addbad" || c.Kind == "addmultibad" || c.Kind == "addmultiabandon" {
 		w.Hist = append(w.Hist, HistEvent{Proc: p.ID, Kind: "add", TxnIDs: idsOf(c.Txns), Call: w.S.Step, Return: -1})
 		hist = len(w.Hist) - 1
 	}
@@ -113,7 +115,10 @@ func (a *Actor) run(p *vos.Proc, c Call) {
 		err = rtx.Safe(func() error {
 			return a.St.Add(func(wr *reftable.Writer) error { return nil })
 		})
-	case "addmulti":
+	case "addmulti", "addmultibad", "addmultiabandon":
+		// addmultibad: the last table is rejected (malformed name), the Addition is
+		// closed; addmultiabandon: all tables are added, then the Addition is closed
+		// without Commit. Neither may leave any trace.
 		err = rtx.Safe(func() error {
 			add, err := a.St.NewAddition()
 			if err != nil {
@@ -127,8 +132,13 @@ func (a *Actor) run(p *vos.Proc, c Call) {
 				if err := add.Add(func(wr *reftable.Writer) error { return stx.WriteTxn(wr, t, u) }); err != nil {
 					return err
 				}
-				ci.UIs = append(ci.UIs, u)
+				if c.Kind == "addmulti" {
+					ci.UIs = append(ci.UIs, u)
+				}
 				ui++
+			}
+			if c.Kind == "addmultiabandon" {
+				return errAbandoned
 			}
 			return add.Commit()
 		})
@@ -220,6 +230,10 @@ func (a *Actor) judge(p *vos.Proc, c Call, ci *CallInfo, err error) {
 			w.violate([]string{"C04"}, "add-failed-after-commit|"+errCls(err), "p%d %s returned %q although its transaction was committed (list %v)", p.ID, c.String(), err, mustNames(w.Dir))
 		case err != nil && err != reftable.ErrLockFailure:
 			w.violate([]string{"C04"}, "add-failed-with-unexpected-error|"+errCls(err), "p%d %s failed with %q (only ErrLockFailure / content rejection are allowed without I/O faults)", p.ID, c.String(), err)
+		}
+	case "addmultibad", "addmultiabandon":
+		if err == nil {
+			w.violate([]string{"C12", "C04"}, "illegal-or-abandoned-addition-committed", "p%d %s returned nil", p.ID, c.String())
 		}
 	case "addbad":
 		if err == nil {
